@@ -7,7 +7,7 @@ import conc
 import driver
 
 PROPERTIES_FILE = "Properties/Properties_C01_root.v"
-COQ_DEPS = ["Proofs/RootQ_wake_proofs.vo", "Extract/Extract_rootq.vo"]
+COQ_DEPS = ["Proofs/RootQ_wake_proofs.vo", "Proofs/RootQR_proofs.vo", "Extract/Extract_rootq.vo"]
 GEN_MODULES = ["Gen_rootq"]
 LEVEL = "proof"
 TRUSTED = [
@@ -69,6 +69,7 @@ class Run:
         other, per = conc.parse_dump(text)
         self.q = self.n = self.b = None
         self.late = 0
+        self.final = None
         self.bad_items = []
         for l in other:
             f = l.split()
@@ -82,6 +83,8 @@ class Run:
                 self.b = [int(float(x)) for x in f[1:]]
             elif f[0] == "L":
                 self.late = int(f[1])
+            elif f[0] == "F":
+                self.final = [int(x) for x in f[1:]]
         (self.ncpu, self.oc, self.off_tail, self.off_pool, self.off_head, self.off_pend, self.off_next, self.off_sema,
          self.qsize, self.pool0) = self.q
         # items = every value exchanged into the tail
@@ -437,7 +440,7 @@ def global_replay(run, threads, window=128):
     # pthread_create k (in time order of the successful cmpxchg on the pool size) starts the k-th worker (in order of first event)
     creates = sorted((e.seq, thr) for (thr, kind, evs) in threads for e in evs
                      if e.kind == 5 and e.obj == 1 and e.off == run.off_pool and (e.ok & 1))
-    workers = sorted((evs[0].tid, thr) for (thr, kind, evs) in threads if kind == "worker")     # kernel thread ids grow with creation
+    workers = sorted((evs[0].seq, thr) for (thr, kind, evs) in threads if kind == "worker")     # the k-th thread to start
     target, born = {}, {}
     for k, (sq, thr) in enumerate(creates):
         if k < len(workers):
@@ -459,6 +462,8 @@ def global_replay(run, threads, window=128):
     r = subprocess.run([exe], input="\n".join(lines) + "\n", stdout=subprocess.PIPE, stderr=subprocess.PIPE, text=True, timeout=600)
     if r.returncode != 0:
         raise RuntimeError("replay driver failed: " + r.stderr[-1500:])
+    if os.environ.get("RQ_DEBUG"):
+        print(r.stderr[:200000])
     out = r.stdout.strip().split("|")
     nact, nrej = [int(x) for x in out[0].split()]
     vals = [from_hex(x) for x in out[1].split()]
@@ -466,6 +471,58 @@ def global_replay(run, threads, window=128):
     rest = vals[len(REPLAY_FIELDS):]
     res["pending_next"] = [(rest[i] - 1, rest[i + 1], rest[i + 2]) for i in range(0, len(rest) - 2, 3)]   # (thread, event index, hidden kind)
     return res, nact, nrej
+
+
+def replay_round(run, tr, label, st):
+    """whole-run replay of one harness run on the global model; returns (replayed, mismatches)"""
+    threads = [(thr, kind, evs) for (sv, evs, lab, thr, kind) in tr]
+    nev = sum(len(e) for (_, _, e) in threads)
+    res, nact, nrej = global_replay(run, threads)
+    st["replay_actions"] = st.get("replay_actions", 0) + res["done"]
+    mism = []
+    if res["left"] == 0 and nrej == 0:
+        if res["inv_code"] != 0:
+            bad = [INV_CLAUSES[i] for i in range(len(INV_CLAUSES)) if (res["inv_code"] >> i) & 1]
+            mism.append({"what": "the state the global model reaches by replaying a recorded run violates the model's invariant "
+                         "(RootQR.inv_code; proved 0 on reachable states: the replayed run left the model's reachable set?)",
+                         "detail": {"label": label, "clauses": bad, "state": {k: res[k] for k in REPLAY_FIELDS}}})
+        if run.final is not None:
+            m64 = lambda x: x & MED
+            got = [res["head"], res["tail"], res["pend"], res["pool"], res["sval"]]
+            exp = [run.final[0], run.final[1], run.final[2], run.final[3], run.final[4]]
+            if [m64(x) for x in got] != [m64(x) for x in exp]:
+                mism.append({"what": "the global model, after replaying the whole recorded run, does not end in the library's final "
+                             "state (head, tail, dgq_pending, dgq_thread_pool_size, dsema_value)",
+                             "detail": {"label": label, "model": got, "library": exp}})
+        return True, mism
+    # not replayed: is some pending action refused by the model although the values it observed are the model's values?
+    words = {(1, run.off_head): res["head"], (1, run.off_tail): res["tail"], (1, run.off_pend): res["pend"] & 0xFFFFFFFF,
+             (1, run.off_pool): res["pool"] & 0xFFFFFFFF, (2, 0): res["sval"] & MED}
+    bythr = {thr: evs for (thr, kind, evs) in threads}
+    pend = res["pending_next"]
+    head_seq = None
+    refused = []
+    for (thr, i, code) in pend:
+        evs = bythr.get(thr, [])
+        if code != 0 or i >= len(evs):
+            continue
+        e = evs[i]
+        if head_seq is None:
+            head_seq = e.seq
+        if e.seq > head_seq + 24:
+            continue
+        if e.kind in (1, 3, 4, 5, 6, 7) and (e.obj, e.off) in words:
+            mask = 0xFFFFFFFF if e.off in (run.off_pend, run.off_pool) and e.obj == 1 else MED
+            if (e.a & mask) == (words[(e.obj, e.off)] & mask) and not (e.kind in (37, 36)):
+                refused.append({"thread": thr, "event": e.brief(), "stamp": e.seq})
+        elif e.kind in (2, 100, 101, 102, 103):
+            refused.append({"thread": thr, "event": e.brief(), "stamp": e.seq})
+    if refused:
+        mism.append({"what": "whole-run replay on the global model RootQ.gstep: the model refuses an action of the recorded run although "
+                     "the values the library observed are the values of the model state (a missing or wrongly guarded branch of the "
+                     "global model)", "detail": {"label": label, "first_unmatched": refused[:4], "done": res["done"], "left": res["left"],
+                                                  "state": {k: res[k] for k in REPLAY_FIELDS[5:]}}})
+    return False, mism
 
 
 def gen_offsets():
@@ -502,6 +559,7 @@ def correspond(ctx):
     OFFSETS = gen_offsets()
     fails, mism, alltr, st = [], [], [], {}
     blocked = []
+    rp_total = rp_ok = 0
     for (mode, seed, permille, oc, size, idle) in plan(ctx):
         label = "%s:%d:%d:%d:%d:%d" % (mode, seed, permille, oc, size, idle)
         text = run_harness(mode, seed, permille, oc, size, idle)
@@ -511,6 +569,27 @@ def correspond(ctx):
         alltr += tr
         if run is None:
             break      # the library does not even run a single item: the remaining runs would only hang
+        # whole-run replay on the global model (an order search that fails is repeated on a fresh run of the same scenario:
+        # only a round in which the model refuses an action, or three rounds in a row without an order, count)
+        if sum(len(t[1]) for t in tr) <= 60000 and not m:
+            rp_total += 1
+            done_it, rm = replay_round(run, tr, label, st)
+            tries = 1
+            while not done_it and not rm and tries < 3:
+                st["replay_order_not_found_retried"] = st.get("replay_order_not_found_retried", 0) + 1
+                text2 = run_harness(mode, seed + 100 * tries, permille, oc, size, idle)
+                run2, f2, m2, tr2 = analyse(text2, label + ":retry%d" % tries, {})
+                fails += f2
+                if run2 is None or m2:
+                    break
+                done_it, rm = replay_round(run2, tr2, label + ":retry%d" % tries, st)
+                tries += 1
+            mism += rm
+            if done_it:
+                rp_ok += 1
+            elif not rm:
+                mism.append({"what": "whole-run replay on the global model RootQ.gstep: no order of the recorded actions was found in "
+                             "three runs of the scenario", "detail": {"label": label}})
         if run.b is not None:
             blocked.append({"label": label, "waiters": run.b[0], "pool_before": run.b[1], "pool_min": run.b[2],
                             "worker_threads": run.b[3], "elapsed_ms": run.b[4], "finished": run.b[5]})
@@ -524,6 +603,8 @@ def correspond(ctx):
         srun, sm, str_ = stall
         mism += sm
         alltr += str_
+    st["rounds_replayed_on_global_model"] = rp_ok
+    st["rounds_total_for_replay"] = rp_total
     mon_mism, mon_n = check_monitor(ctx, st)
     mism += mon_mism
     res = ocaml_conform([(sv, t) for (sv, t, _, _, _) in alltr])
